@@ -226,13 +226,9 @@ func (vr *GposValueRecord) Apply(glyph *glyph.Info) {
 		return
 	}
 
-	if vr.YAdvance != 0 ||
-		vr.XPlacementDevOffs != 0 ||
-		vr.YPlacementDevOffs != 0 ||
-		vr.XAdvanceDevOffs != 0 ||
-		vr.YAdvanceDevOffs != 0 {
-		panic("not implemented")
-	}
+	// YAdvance only applies to vertical layout, and the device tables only
+	// adjust positions for specific pixel sizes: neither has a counterpart
+	// in glyph.Info, so these fields are ignored.
 
 	glyph.XOffset += vr.XPlacement
 	glyph.YOffset += vr.YPlacement
